@@ -195,6 +195,8 @@ struct Cell {
     val: u8,
     prev: u8,
     writer: &'static str,
+    /// running number of the write (later writes have larger numbers)
+    seq: u64,
 }
 
 struct Sim<'a> {
@@ -210,6 +212,7 @@ struct Sim<'a> {
     flash_obs: Vec<(u64, bool)>,
     cells: Vec<Vec<Cell>>, // [ram bank][offset < 6912]
     fails: Vec<Fail>,
+    seq: u64,
     spec_every: u64,
     stable_seen: u64,
 }
@@ -255,7 +258,8 @@ impl<'a> Sim<'a> {
             dirty: true,
             spec_cache: None,
             flash_obs: vec![],
-            cells: vec![vec![Cell { val: 0, prev: 0, writer: "init" }; SCR_LEN]; banks],
+            cells: vec![vec![Cell { val: 0, prev: 0, writer: "init", seq: 0 }; SCR_LEN]; banks],
+            seq: 0,
             fails: vec![],
             spec_every: 1,
             stable_seen: 0,
@@ -335,10 +339,12 @@ impl<'a> Sim<'a> {
 
     fn note_write(&mut self, bank: usize, off: usize, v: u8, writer: &'static str) {
         if off < SCR_LEN {
+            self.seq += 1;
             let c = &mut self.cells[bank][off];
             c.prev = c.val;
             c.val = v;
             c.writer = writer;
+            c.seq = self.seq;
             self.dirty = true;
             self.spec_cache = None;
         }
@@ -391,8 +397,15 @@ impl<'a> Sim<'a> {
         let (x, y) = (p % 256, p / 256);
         let cb = self.cells[vb][bitmap_off(x, y)];
         let ca = self.cells[vb][attr_off(x, y)];
+        // which byte is stale? candidates: display byte, attribute, both; when several explain the
+        // pixel, the byte written last is the suspect
         let mut culprit = "unknown".to_string();
-        'outer: for (sb, sa) in [(true, false), (false, true), (true, true)] {
+        let mut cands: Vec<(bool, bool)> = vec![(true, false), (false, true)];
+        if ca.seq > cb.seq {
+            cands.reverse();
+        }
+        cands.push((true, true));
+        'outer: for (sb, sa) in cands {
             for phase in [false, true] {
                 let b = if sb { cb.prev } else { cb.val };
                 let a = if sa { ca.prev } else { ca.val };
@@ -1026,7 +1039,7 @@ fn violation_of(case: &Case, f: &Fail) -> Violation {
 
 /// ddmin over the op list, then zeroing of byte strings, keeping a failure with the same key
 fn shrink(model: &mut Model, case: &Case, key: &str) -> Case {
-    let mut budget = 120usize;
+    let mut budget = 60usize;
     let mut fails = |model: &mut Model, c: &Case, budget: &mut usize| -> bool {
         if *budget == 0 {
             return false;
@@ -1446,7 +1459,9 @@ phases by frame number mod 32, probe (byte kind, before/after/margin, dt) classe
                 rep.count("repeat_violations", f.key.clone());
                 continue;
             }
-            let small = shrink(&mut model, case, &f.key);
+            // shrinking re-runs the case many times; after a handful of distinct failures the
+            // remaining ones are recorded as found
+            let small = if rep.violations.len() < 5 { shrink(&mut model, case, &f.key) } else { case.clone() };
             let mut o2 = Out::default();
             let f2 = run_case(&mut model, &small, 1, &mut o2).into_iter().find(|x| x.key == f.key).unwrap_or(f);
             rep.violation(violation_of(&small, &f2));
